@@ -221,7 +221,11 @@ def _constraint_fn(con, weights):
 
 
 def _present(value, form):
-    """How the caller spells a per-item / per-bin option: a list (documented), or another sequence type."""
+    """How the caller spells a per-item / per-bin option: a list (documented), or another sequence type; one number
+    for all items may be a numpy integer (e.g. the result of arr.max())."""
+    if isinstance(value, int) and form == "ndarray":
+        import numpy as np
+        return np.int64(value)
     if not isinstance(value, list) or form in (None, "list"):
         return list(value) if isinstance(value, list) else value
     if form == "tuple":
